@@ -269,6 +269,13 @@ def check_diagnostics(fb, ctx):
     for u in fb.units:
         for d in u.errors():
             f = short(d["file"])
+            if u.name == "inst_auto":
+                # the generated driver tries argument lists; one whose instantiation does not compile is simply not a
+                # use the member supports (the functions it touched are marked invalid by the extractor and left out)
+                msg = "generated driver: %s:%s %s" % (f, d["line"], d["msg"][:100])
+                if msg not in ctx.skipped and len(ctx.skipped) < 200:
+                    ctx.skipped.append(msg)
+                continue
             hit = None
             for a in allowed:
                 if f.endswith(a["file"]) and re.search(a["msg"], d["msg"]):
@@ -304,16 +311,15 @@ def check_diagnostics(fb, ctx):
                     ctx.skipped.append(s)
 
 
-def audit_coverage(fb, ctx):
-    """every function defined under gmlc/ must have >= 1 analysed instantiation
-    or be listed as uninstantiable (DESIGN 2.2)"""
+def uncovered(fb):
+    """(patterns defined under gmlc/ that have no analysed instantiation and are not listed as uninstantiable, total)"""
     tab = json.load(open(os.path.join(VERIF, "tables", "uninstantiable.json")))
     unin = {(a["file"], a["name"]) for a in tab["members"]}
     nobody = {(a["file"], a["name"]) for a in tab.get("not_analysed", [])}
     have = set()
     for f in fb.functions(valid_only=True, raw=True):
         have.add(f.pattern)
-    missing = []
+    missing = {}
     total = 0
     for u in fb.units:
         if not u.name.startswith("inst_"):
@@ -327,10 +333,51 @@ def audit_coverage(fb, ctx):
             key = (short(p["file"]), p["name"])
             if key in unin or key in nobody:
                 continue
-            missing.append("%s %s" % (short(p["loc"]), p["qname"]))
-    if missing:
-        raise Broken("driver does not cover (no analysed instantiation): " + "; ".join(sorted(set(missing))[:8]))
+            missing[p["loc"]] = p
+    return list(missing.values()), total
+
+
+def audit_coverage(fb, ctx, files=None):
+    """every function defined under gmlc/ must have >= 1 analysed instantiation
+    or be listed as uninstantiable (DESIGN 2.2).  A function without one makes the properties anchored in its file
+    undecidable; for the other properties it is a note in the evidence."""
+    missing, total = uncovered(fb)
+    mine = [p for p in missing if files is None or os.path.basename(p["file"]) in files]
+    other = [p for p in missing if p not in mine]
+    for p in other:
+        ctx.note("no analysed instantiation of %s %s (outside the files this property is anchored in)" % (short(p["loc"]), p["qname"]))
+    if mine:
+        raise Broken("driver does not cover (no analysed instantiation): " +
+                     "; ".join(sorted({"%s %s" % (short(p["loc"]), p["qname"]) for p in mine})[:8]))
     return total
+
+
+def auto_unit(fb, tier, log):
+    """facts of a generated driver for the members nothing instantiates yet (rules/autodrive.py); None if not needed"""
+    from . import autodrive
+    missing, _ = uncovered(fb)
+    if not missing:
+        return None
+    hdrs = repo_headers()
+    key = _sha(hdrs + [EXTRACT, os.path.join(VERIF, "drivers", "inst.cpp"), os.path.join(VERIF, "rules", "autodrive.py")], "auto1")
+    d = os.path.join(CACHE, "facts", "auto_" + key)
+    src = autodrive.synthesize(missing, VERIF, d)
+    if src is None:
+        return None
+    path = os.path.join(d, "inst_auto.json")
+    if not os.path.exists(path):
+        flags = ["-std=c++17", "-I" + os.path.join(REPO, "gmlc"), "-UNDEBUG", "-DVP=0", "-ferror-limit=0"]
+        tmp = path + ".tmp.%d" % os.getpid()
+        cmd = [EXTRACT, "-o", tmp, "--root", os.path.join(REPO, "gmlc"), src, "--"] + flags
+        t0 = time.time()
+        r = subprocess.run(cmd, stdout=subprocess.PIPE, stderr=subprocess.STDOUT, text=True)
+        if not os.path.exists(tmp):
+            log["auto_driver"] = "extractor produced no output: " + r.stdout[-500:]
+            return None
+        os.replace(tmp, path)
+        log["auto_driver_seconds"] = round(time.time() - t0, 2)
+    log["auto_driver"] = "generated for: " + ", ".join(sorted({p["qname"] for p in missing})[:12])
+    return path
 
 
 # -------------------------------------------------------------------- main
@@ -341,6 +388,9 @@ def run_property(prop, tier):
     repo_paths = [p for n, p, _ in units if n != "fixtures"]
     fx_paths = [p for n, p, _ in units if n == "fixtures"]
     fb = FactBase(repo_paths)
+    ap = auto_unit(fb, tier, log)
+    if ap:
+        fb = FactBase(repo_paths + [ap])
     eng = Engine(fb)
     fxb = FactBase(fx_paths)
     fxe = Engine(fxb)
@@ -350,7 +400,12 @@ def run_property(prop, tier):
     for u in fxb.units:
         if u.errors():
             raise Broken("fixture unit does not compile: " + u.errors()[0]["msg"][:200])
-    n_patterns = audit_coverage(fb, ctx)
+    anchor_files = []
+    for line in open(os.path.join(VERIF, "properties.jsonl")):
+        pj = json.loads(line)
+        if pj["id"] == prop:
+            anchor_files = [os.path.basename(x) for x in pj.get("anchors", {}).get("files", [])]
+    n_patterns = audit_coverage(fb, ctx, anchor_files or None)
     from . import flow
     flow.DEPTH = 2 if tier == "thorough" else 1
     ctx.log["path_enumeration_loop_bound"] = flow.DEPTH
